@@ -245,3 +245,14 @@ def KOBJ(cls):
 
 def is_sym(v):
     return isinstance(v, (SInt, SBool, SSeq, STup, SymObj))
+
+
+class SymFlags(object):
+    """A set of flag objects given by one symbolic boolean per candidate flag."""
+    def __init__(self, flags, terms):
+        self.flags = flags          # tuple of concrete flag objects
+        self.terms = terms          # matching z3 Bools
+
+
+class RaiserVal(object):
+    """Stand-in for the interpreter's err_raiser closure: calling it raises cls(*args)."""
